@@ -238,4 +238,8 @@ class Encoder(object):
         return "'%s'" % val.compressed
 
     def cql_encode_decimal(self, val):
-        return self.cql_encode_float(float(val))
+        """
+        Converts a :class:`decimal.Decimal` to its exact decimal literal
+        (going through ``float`` would round it to 17 significant digits).
+        """
+        return str(val)
